@@ -228,7 +228,7 @@ fn connack_body(variant: u8) {
 // @harness assumes="write_packet, fill_packet_reader, PacketReader::received_packet replaced by stubs with arbitrary outcomes (their subjects: c09_enc_connect_*, c15_read_packet_*, c08_dec_connack_*); CONNACK properties from the ghost slice (projection rule); K5; clear() as c05_reset_clears_everything"
 hs_harness!(c05_connack_plain, 6, { connack_body(0) });
 
-// @harness props=C06,C05,C08 tier=quick layer=L3p unwind=6
+// @harness props=C06,C05,C08,C18 tier=quick layer=L3p unwind=6
 // @harness funcs="as c05_connack_plain + Receive Maximum handling"
 // @harness sym="as plain + Receive Maximum value (all u16)" bounds="CONNACK with ReceiveMaximum"
 // @harness assumes="as c05_connack_plain"
